@@ -312,47 +312,6 @@ pub fn run_case(case: &PipeCase, prop: &'static str) -> CaseReport {
         }
     };
     let finish = if case.quit_pos().is_some() { Finish::Eof } else { Finish::Sentinel };
-    // the last request must be answered without any further input (the sentinel would otherwise push a
-    // held-back request through): checked on a separate connection for pipelines ending in a loud command
-    if prop == "C12" && case.quit_pos().is_none() {
-        if let Some(PItem::Cmd(lc)) = case.items.last() {
-            if !lc.quiet && !frames.is_empty() {
-                let last_idx = (frames.len() - 1) as u32;
-                if let Ok(mut c) = crate::l3::Client::connect(server.port) {
-                    let mut ok_sent = true;
-                    for ch in &chunks {
-                        if c.send_chunk(ch, Duration::from_secs(5)) != crate::l3::Drain::Drained {
-                            ok_sent = false;
-                            break;
-                        }
-                    }
-                    if ok_sent {
-                        let mut answered = c.read_until(Duration::from_secs(3), |c| c.has_opaque(last_idx));
-                        if !answered && !(c.eof || c.reset) {
-                            answered = c.read_until(Duration::from_secs(3), |c| c.has_opaque(last_idx));
-                        }
-                        if !answered && !(c.eof || c.reset) {
-                            rep.fail = Some(FailInfo {
-                                clause: "answered_only_after_more_input".into(),
-                                msg: format!(
-                                    "the last request of the pipeline ({}, opaque {}) was completely sent but not answered within 6 s while the connection stayed open: it is held back until further bytes arrive",
-                                    lc.short(),
-                                    last_idx
-                                ),
-                                signature: "answered_only_after_more_input".into(),
-                                detail: json!({"stream_hex": wire::compact_hex(&stream), "cuts": cuts}),
-                            });
-                            c.reset_close();
-                            return rep;
-                        }
-                    }
-                    c.reset_close();
-                    // the side connection executed the pipeline once: start from a clean store for the judged run
-                    let _ = server.side_exec(&wire::flush(wire::FLUSH, None, 0));
-                }
-            }
-        }
-    }
     let run = match netpipe::run_connection(&server, &chunks, finish, Duration::from_secs(5)) {
         Ok(r) => r,
         Err(e) => {
@@ -398,6 +357,58 @@ pub fn run_case(case: &PipeCase, prop: &'static str) -> CaseReport {
                 "responses": run.resps.iter().map(|r| r.short()).collect::<Vec<_>>(), "eof": run.eof, "reset": run.reset}),
         });
     }
+    // Every due response must arrive WITHOUT further input: the same chunks on a fresh server, no sentinel
+    // behind them (the sentinel of the judged run would push held-back requests or responses through).
+    if prop == "C12" && rep.fail.is_none() && case.quit_pos().is_none() && !frames.is_empty() {
+        let expected = run.resps.len();
+        drop(server);
+        if let Ok(server2) = netpipe::start_server(opts) {
+            if let Ok(mut c) = crate::l3::Client::connect(server2.port) {
+                let mut ok_sent = true;
+                for ch in &chunks {
+                    if c.send_chunk(ch, Duration::from_secs(5)) != crate::l3::Drain::Drained {
+                        ok_sent = false;
+                        break;
+                    }
+                }
+                if ok_sent {
+                    let mut done = c.read_until(Duration::from_secs(3), |c| c.resps.len() >= expected);
+                    if !done && !(c.eof || c.reset) {
+                        done = c.read_until(Duration::from_secs(3), |c| c.resps.len() >= expected);
+                    }
+                    if !done && !(c.eof || c.reset) {
+                        rep.fail = Some(FailInfo {
+                            clause: "answered_only_after_more_input".into(),
+                            msg: format!(
+                                "the pipeline was sent completely; with a noop behind it {} responses arrive, without it only {} arrive within 6 s while the connection stays open: requests or responses are held back until further bytes arrive",
+                                expected,
+                                c.resps.len()
+                            ),
+                            signature: "answered_only_after_more_input".into(),
+                            detail: json!({"stream_hex": wire::compact_hex(&stream), "cuts": cuts}),
+                        });
+                    }
+                }
+                c.reset_close();
+            }
+        }
+        let answered: Vec<usize> = run.resps.iter().map(|r| r.opaque as usize).collect();
+        let silent_between = (0..frames.len()).any(|i| {
+            !answered.contains(&i) && answered.iter().any(|a| *a < i) && answered.iter().any(|a| *a > i) && wire::is_quiet(frames[i].opcode)
+        });
+        rep.nontrivial = silent_between;
+        rep.classes.push(format!("seg{}", case.seg));
+        rep.classes.push(format!("workers{}", case.workers));
+        if silent_between {
+            rep.classes.push("quiet_silent_between_loud".into());
+        }
+        if case.items.iter().any(|i| matches!(i, PItem::Unimpl { .. })) {
+            rep.classes.push("unimplemented_opcode".into());
+        }
+        rep.extra_counts.push(("responses".into(), run.resps.len() as u64));
+        rep.extra_counts.push(("requests".into(), frames.len() as u64));
+        return rep;
+    }
     // non-trivial rule
     let answered: Vec<usize> = run.resps.iter().map(|r| r.opaque as usize).collect();
     let silent_between = (0..frames.len()).any(|i| {
@@ -437,12 +448,20 @@ pub fn check(ctx: &mut Ctx) -> i32 {
         }
     }
     ctx.max_shrink_iters = 300;
-    let n = ctx.by(75, 1500);
+    let n = ctx.by(50, 1200);
     if let Some(f) = explore(ctx, &acc, "l3-pipelines", "pipe", &strategy, n, ctx.workers, |c: &PipeCase| run_case(c, prop)) {
         report_violation(ctx, "pipe", &serde_json::to_value(&f.case).unwrap(), &f.fail);
         write_evidence(ctx, &acc, RULE, ASSUME, 1);
         print_summary(ctx, &acc);
         return EXIT_VIOLATION;
+    }
+    for ph in [crate::props::l3phases::quit_then_reset_phase as fn(&Ctx, &Accum) -> Option<i32>, crate::props::l3phases::quit_after_backlog_phase] {
+        if let Some(code) = ph(ctx, &acc) {
+            if code != EXIT_OK {
+                write_evidence(ctx, &acc, RULE, ASSUME, 1);
+                return code;
+            }
+        }
     }
     if let Some(code) = crate::props::l3phases::active_connection_phase(ctx, &acc, false) {
         if code != EXIT_OK {
